@@ -424,7 +424,9 @@ impl Debug for FramesDebug {
 
 pub(crate) fn num_frames(frames: &[Frame], slice: Option<(usize, usize)>) -> usize {
 	if let Some((start, end)) = slice {
-		end - start
+		// a slice can't extend past the end of the audio, and a slice
+		// that ends before it starts is empty
+		end.min(frames.len()).saturating_sub(start)
 	} else {
 		frames.len()
 	}
